@@ -613,12 +613,16 @@ def check_c14(tier, seed):
             case = W14.gen_case(rng)
             files, meta = W14.render(case, "c%d" % k, "m%d" % k)
             _write_files(ws.root, files)
+            # unrelated packages without wire files, sorting before and after the wire package: named next to it on the
+            # command line they must not change the output
+            _write_files(ws.root, {"a%dx/a.go" % k: "package a%dx\n\nfunc F() int { return %d }\n" % (k, k),
+                                   "z%dx/z.go" % k: "package c%d\n\ntype Other struct{ N int }\n" % k})
             cases.append(dict(k=k, case=case, meta=meta, files=files, desc=W14.describe(case)))
-        def run_migrate(c, out_rel, extra_env=None):
+        def run_migrate(c, out_rel, extra_env=None, patterns=None):
             e = ws.env()
             if extra_env:
                 e.update(extra_env)
-            return C.run([cli, "migrate", "-o", out_rel, "./m%d" % c["k"]], cwd=ws.root, extra_env=e, timeout=300)
+            return C.run([cli, "migrate", "-o", out_rel] + (patterns or ["./m%d" % c["k"]]), cwd=ws.root, extra_env=e, timeout=300)
         from concurrent.futures import ThreadPoolExecutor
         def one(c):
             outp = os.path.join(ws.root, "m%d" % c["k"], "kessoku.go")
@@ -656,12 +660,37 @@ def check_c14(tier, seed):
                         continue            # refusing to create directories is fine, as long as it is reported
                     if got != c["text"]:
                         hist[label] = got
+                # several package patterns: the wire package before / after / between packages that have no wire files
+                k = c["k"]
+                m_, a_, z_ = "./m%d" % k, "./a%dx" % k, "./z%dx" % k
+                pat_diff = {}
+                for pats in ([m_, a_], [a_, m_], [m_, z_], [z_, m_], [a_, m_, z_]):
+                    hp = os.path.join(ws.root, "h%d" % k, "pats.go")
+                    if os.path.exists(hp):
+                        os.remove(hp)
+                    rc_p, out_p = run_migrate(c, hp, patterns=pats)
+                    got = open(hp).read() if os.path.exists(hp) else None
+                    if got != c["text"] and (got is not None or rc_p == 0):
+                        pat_diff[" ".join(pats)] = got
                 c["history_diff"] = hist
                 open(outp, "w").write(c["text"])
                 rcf, outf = C.run(["gofmt", "-l", outp], timeout=60)
                 c["gofmt_dirty"] = bool(outf.strip()) or rcf != 0
                 for fn in c["meta"]["wire_files"]:
                     os.remove(os.path.join(ws.root, "m%d" % c["k"], fn))
+                # an output that depends on the other patterns is judged like any output: it has to compile in the package
+                c["pattern_bad"] = {}
+                for pats, got in pat_diff.items():
+                    if got is None:
+                        c["pattern_bad"][pats] = "exit 0 and no output file although the single-pattern run writes one"
+                        continue
+                    open(outp, "w").write(got)
+                    rc_b, out_b = C.run(["go", "build", "-gcflags=-e", "./m%d/" % c["k"]], cwd=ws.root, extra_env=ws.env(), timeout=600)
+                    rc_f, out_f = C.run(["gofmt", "-l", outp], timeout=60)
+                    if rc_b != 0 or out_f.strip():
+                        c["pattern_bad"][pats] = "output: %s ... ; %s" % (got[:400], (out_b.strip().splitlines() or ["not gofmt-stable"])[-1][:300])
+                open(outp, "w").write(c["text"])
+                c["pattern_diffs"] = len(pat_diff)
             return c
         with ThreadPoolExecutor(8) as ex:
             cases = list(ex.map(one, cases))
@@ -716,6 +745,9 @@ def check_c14(tier, seed):
             for label, got in c.get("history_diff", {}).items():
                 report(c, "depends-on-output-path", "migrating with %s gives different bytes than a fresh absolute path (%s)" % (
                     label, "no file" if got is None else "tail: %r" % got[-80:]))
+            for pats, what in c.get("pattern_bad", {}).items():
+                report(c, "depends-on-command-line-patterns", "`kessoku migrate %s` writes a file that does not compile in the wire package (the single-pattern output does): %s" % (pats, what))
+            stats["multi-pattern-output-differs-but-compiles"] += c.get("pattern_diffs", 0) - len(c.get("pattern_bad", {}))
             decl = re.findall(r"^var (\w+) = kessoku\.Set\(", c["text"], re.M)
             if sorted(decl) != sorted(c["meta"]["sets"]):
                 report(c, "sets", "sets declared %s, source sets %s" % (decl, c["meta"]["sets"]))
